@@ -63,6 +63,16 @@ DESC = {
  "r4C15": ("eval_number median by select_nth_unstable (lower middle read from an unordered position)", "even count of at least 18 arguments in an unlucky order"),
  "r4C17": ("right factor of an implicit product parsed at `Additive.tighter()`, computed from enum ordinals with literal numbers", "subset without eval_i64, implicit product followed by ^, a superscript or !"),
  "r4C18": ("From<f64> for Number: upper bound replaced by the constant 2^63-1024 but the comparison stayed strict", "the double 2^63-1024 (largest f64 inside the i64 range)"),
+ "r5C01": ("eval_number quotes the unread input in its trailing-token error and shortens it with String::truncate(20): panics inside a multi-byte character", "rejected input with more than 20 bytes after the offending token and a non-ASCII character straddling byte 20"),
+ "r5C02": ("eval_i64 log(x,b) counts powers with saturating_mul: `power <= value` stays true for value = i64::MAX", "`log(9223372036854775807,7)`"),
+ "r5C03": ("tokenizers skip an optional `r` after `a` before the whole name cascade: `arsin(`, `arcos(`, `arbs(` are accepted", "an unoffered name that is a near miss of an offered one"),
+ "r5C04": ("eval_f64 computes a power of a power as x^(a*b) when a*b is whole and one exponent is fractional", "`-2^2^0.5`: negative base, tower with a fractional exponent"),
+ "r5C12": ("the empty `avg()` returns early past implicit_multiply", "`avg()(3)`: empty avg directly followed by a factor"),
+ "r5C13": ("postfix `!` no longer starts an implicit product: `3!(2)` is rejected, `(3!)(2)` is not", "factorial directly followed by a group, literal or function"),
+ "r5C14": ("textual pre-check refuses `@` next to an operand; its letter test also catches the postfix operator `rad`", "`@rad`"),
+ "r5C16": ("eval_decimal Lambert W warm-starts from a thread-local root left by the previous nearby evaluation", "two Lambert W evaluations with arguments within 6% of each other on one thread"),
+ "r5C19": ("eval_decimal rounds literals with a fraction and 29 significant digits to 28", "reading back a full-precision result (`4/3`)"),
+ "r5C20": ("eval_decimal: a closing bracket takes a following superscript before the enclosing operator can", "`-(1+2)²` against `-@²`"),
 }
 rows = []
 for d in sorted(glob.glob(os.path.join(V, "seeded", "*"))):
